@@ -6,5 +6,6 @@ CONSTANTS
   PMaxV = 5
   Devs = {0, 10, 50, 100}
   Kind = "price"
+  Small = FALSE
 INVARIANTS InvTime InvPriceBatch InvAdjust InvAdjustOrdered InvWith
 CHECK_DEADLOCK FALSE
